@@ -544,8 +544,134 @@ class EigenDomain(Domain):
 
 
 def run(ctx):
-    for r in (_r1, _r2, _r3, _r4, _r5, _r6, _r7, _r8, _r9):
+    for r in (_r1, _r2, _r3, _r4, _r5, _r6, _r7, _r8, _r9, _r10):
         ctx.attempt(r)
+
+
+_CONVERSIONS = ("np.array", "np.asarray", "np.asanyarray", "np.atleast_1d", "numpy.array", "numpy.asarray")
+
+
+def _converted_component(fi, v):
+    """np.array(<component parameter>, ...) / <component parameter>.astype(...) (possibly chained)"""
+    while isinstance(v, ast.Call):
+        if call_name(v) in _CONVERSIONS and v.args:
+            v = v.args[0]
+        elif isinstance(v.func, ast.Attribute) and v.func.attr in ("astype", "copy"):
+            v = v.func.value
+        else:
+            return False
+    return isinstance(v, ast.Name) and v.id in COMPS and v.id in fi.params
+
+
+def _elementwise_conversion(prog, fi, v, depth=0):
+    """v = (conv(c) for c in (<components>)) / [conv(c) for c in components] / helper(<components>) whose return value is
+    such a comprehension over its parameters -> (is floating, function, conversion expression); None when v is something else."""
+    from .c08 import _float_normalised
+    if isinstance(v, (ast.GeneratorExp, ast.ListComp)) and len(v.generators) == 1 and isinstance(v.generators[0].target, ast.Name) \
+            and not v.generators[0].ifs:
+        var = v.generators[0].target.id
+        e = v.elt
+        inner = e
+        while isinstance(inner, ast.Call):
+            if call_name(inner) in _CONVERSIONS and inner.args:
+                inner = inner.args[0]
+            elif isinstance(inner.func, ast.Attribute) and inner.func.attr in ("astype", "copy"):
+                inner = inner.func.value
+            else:
+                return None
+        if not (isinstance(inner, ast.Name) and inner.id == var):
+            return None
+        return _float_normalised(prog, fi, e), fi, e
+    if isinstance(v, ast.Call) and call_name(v) in ("tuple", "list") and len(v.args) == 1:
+        return _elementwise_conversion(prog, fi, v.args[0], depth)
+    if isinstance(v, ast.Name):
+        defs = [st for st in walk_function(fi.node) if isinstance(st, ast.Assign) and
+                any(isinstance(t, ast.Name) and t.id == v.id for t in st.targets)]
+        if len(defs) == 1:
+            return _elementwise_conversion(prog, fi, defs[0].value, depth)
+        return None
+    if isinstance(v, ast.Call) and depth < 2:
+        keys = [k for k in prog.resolve_call(fi, v) if k in prog.functions]
+        if len(keys) == 1:
+            callee = prog.functions[keys[0]]
+            rets = [r for r in walk_function(callee.node) if isinstance(r, ast.Return) and r.value is not None]
+            if len(rets) == 1:
+                return _elementwise_conversion(prog, callee, rets[0].value, depth + 1)
+    return None
+
+
+def _unpacked_conversion(prog, fi, st):
+    """`s11, s22, ... = <elementwise conversion of the component parameters>`"""
+    names = names_in(st.value)
+    if not any(x in COMPS and x in fi.params for x in names):
+        return None
+    got = _elementwise_conversion(prog, fi, st.value)
+    if got is None:
+        if isinstance(st.value, (ast.Tuple, ast.List)):
+            return None
+        raise AnalysisError("%s: %r - the components are re-bound together in a form that is not recognised as an "
+                            "element-wise conversion" % (fi.qualname, norm_text(st)[:80]))
+    return got
+
+
+def _r10(ctx):
+    """R-C17-10: the closed forms do their arithmetic in floating point.  Wherever a plain function of the module adds,
+    subtracts, multiplies or raises to a power the components themselves (not eigenvalues, which numpy.linalg returns as floats),
+    the operands are the parameters converted with a floating element type.  A conversion that keeps the caller's element type
+    lets integer stresses (FE results stored as int32 in Pa) wrap around in the squares / in the trace: mises(50000, 0, ...) in
+    int32 is not 50000, and scaling the tensor by a positive factor no longer scales the result - the property for integer input."""
+    from .c08 import _float_normalised
+    prog = ctx.prog
+    ctx.rule("R-C17-10", floor=2, what="component arithmetic of the closed forms is done on float-converted components")
+    for k, fi in sorted(prog.functions.items()):
+        if fi.module.name != EQ or fi.cls is not None:
+            continue
+        done = set()
+        for n in walk_function(fi.node):
+            if not (isinstance(n, ast.BinOp) and isinstance(n.op, (ast.Add, ast.Sub, ast.Mult, ast.Pow))):
+                continue
+            for side in (n.left, n.right):
+                if not isinstance(side, ast.Name) or side.id in done:
+                    continue
+                defs = [st for st in walk_function(fi.node) if isinstance(st, ast.Assign) and
+                        any(isinstance(t, ast.Name) and t.id == side.id for t in st.targets)]
+                unpacked = [st for st in walk_function(fi.node) if isinstance(st, ast.Assign) and any(
+                    isinstance(t, (ast.Tuple, ast.List)) and any(isinstance(x, ast.Name) and x.id == side.id for x in t.elts)
+                    for t in st.targets)]
+                if unpacked:
+                    if defs or len(unpacked) > 1:
+                        raise AnalysisError("%s: component %r is defined in more than one way before its arithmetic" % (fi.qualname, side.id))
+                    verdict = _unpacked_conversion(prog, fi, unpacked[0])
+                    if verdict is None:
+                        continue                # not a conversion of the components
+                    for t in unpacked[0].targets[0].elts:
+                        done.add(t.id)
+                    ok, where, expr = verdict
+                    if ok:
+                        ctx.holds(fi, unpacked[0], "%s: components converted to a floating element type together (%s)" % (fi.qualname, norm_text(expr)[:60]))
+                    else:
+                        ctx.violated(where, expr, "%s: %r keeps the caller's element type, and %r is then computed in it: integer "
+                                     "components (e.g. int32 stresses in Pa) wrap around, the result is not the equivalent stress and "
+                                     "does not scale with the tensor" % (fi.qualname, norm_text(expr), norm_text(n)[:60]))
+                    continue
+                if not defs and side.id in fi.params and side.id in COMPS:
+                    done.add(side.id)
+                    ctx.violated(fi, n, "%s: arithmetic %r on the raw component %r - the caller's element type (possibly a narrow "
+                                 "integer type) decides whether the closed form overflows" % (fi.qualname, norm_text(n), side.id))
+                    continue
+                conv = [d for d in defs if _converted_component(fi, d.value)]
+                if not conv:
+                    continue                    # derived quantity (eigenvalues, signs): outside this rule
+                done.add(side.id)
+                if len(conv) != len(defs):
+                    raise AnalysisError("%s: component %r is defined in more than one way before its arithmetic" % (fi.qualname, side.id))
+                if all(_float_normalised(prog, fi, d.value) for d in conv):
+                    ctx.holds(fi, conv[0], "%s: %s converted to a floating element type before %r" % (fi.qualname, side.id, norm_text(n)[:50]))
+                else:
+                    bad = next(d for d in conv if not _float_normalised(prog, fi, d.value))
+                    ctx.violated(fi, bad, "%s: %r keeps the caller's element type, and %r is then computed in it: integer "
+                                 "components (e.g. int32 stresses in Pa) wrap around, the result is not the equivalent stress and "
+                                 "does not scale with the tensor" % (fi.qualname, norm_text(bad), norm_text(n)[:60]))
 
 
 def _r9(ctx):
@@ -1048,6 +1174,64 @@ EP = "src/pylife/stress/equistress.py"
 
 def variants():
     out = []
+
+    def _conv_calls(tree, fname):
+        f = find_func(tree, fname)
+        return [st.value for st in f.body if isinstance(st, ast.Assign) and isinstance(st.value, ast.Call) and
+                call_name(st.value) == "np.array" and any(k.arg == "dtype" for k in st.value.keywords)]
+
+    def mises_keeps_dtype(tree):
+        cs = _conv_calls(tree, "mises")
+        for c in cs:
+            c.keywords = [k for k in c.keywords if k.arg != "dtype"]
+        return len(cs) == 6
+    out.append(witness("mises squares the components in the caller's element type", EP, mises_keeps_dtype, "R-C17-10"))
+
+    def trace_keeps_dtype(tree):
+        cs = _conv_calls(tree, "_sign_trace")
+        cs[1].keywords = []
+        return len(cs) == 3
+    out.append(witness("trace summed in the caller's element type", EP, trace_keeps_dtype, "R-C17-10"))
+
+    def mises_int_dtype(tree):
+        cs = _conv_calls(tree, "mises")
+        for c in cs:
+            c.keywords = [ast.keyword(arg="dtype", value=parse_expr("np.int64"))]
+        return len(cs) == 6
+    out.append(witness("mises converts the components to int64", EP, mises_int_dtype, "R-C17-10"))
+
+    def mises_asarray_float(tree):
+        cs = _conv_calls(tree, "mises")
+        for c in cs:
+            c.func = parse_expr("np.asarray")
+            c.keywords = [ast.keyword(arg="dtype", value=parse_expr("float"))]
+        return len(cs) == 6
+    out.append(twin("mises converts with np.asarray(..., dtype=float)", EP, mises_asarray_float))
+
+    def _mises_unpacked(conv):
+        def edit(tree):
+            f = find_func(tree, "mises")
+            idx = [i for i, st in enumerate(f.body) if isinstance(st, ast.Assign) and isinstance(st.value, ast.Call) and
+                   call_name(st.value) == "np.array" and st.value.keywords]
+            if len(idx) != 6:
+                return False
+            f.body[idx[0]] = parse_stmt("s11, s22, s33, s12, s13, s23 = (%s for c in (s11, s22, s33, s12, s13, s23))" % conv)
+            for i in reversed(idx[1:]):
+                del f.body[i]
+            return True
+        return edit
+    out.append(witness("mises converts all components in one generator without an element type", EP, _mises_unpacked("np.array(c)"), "R-C17-10"))
+    out.append(twin("mises converts all components in one generator with dtype=float", EP, _mises_unpacked("np.asarray(c, dtype=float)")))
+
+    def mises_astype(tree):
+        f = find_func(tree, "mises")
+        n = 0
+        for st in f.body:
+            if isinstance(st, ast.Assign) and isinstance(st.value, ast.Call) and call_name(st.value) == "np.array" and st.value.keywords:
+                st.value = parse_expr("np.asarray(%s).astype(np.float64)" % st.targets[0].id)
+                n += 1
+        return n == 6
+    out.append(twin("mises converts with np.asarray(x).astype(np.float64)", EP, mises_astype))
 
     def diag_fast_path(tree):
         f = find_func(tree, "eigenval")
